@@ -27,7 +27,7 @@ for pid, pth in items:
     for m in re.finditer(r"check: violation class=(\S+) seed=(\d+) replay_reproduced=(\S+)", out):
         classes.setdefault(m.group(1), []).append(m.group(3))
     res[key] = {"property": pid, "exit": r.returncode, "caught": r.returncode == 1, "classes": {k: len(v) for k, v in classes.items()},
-                "replay_ok": all(x.split("/")[0] == x.split("/")[1] for v in classes.values() for x in v), "wall_s": round(time.time() - t0, 1)}
+                "replay_ok": all(x.split("/")[0] == x.split("/")[1] for v in classes.values() for x in v if "/" in x), "wall_s": round(time.time() - t0, 1)}
     if r.returncode not in (0, 1):
         res[key]["note"] = out[-400:]
     json.dump(res, open(res_path, "w"), indent=1, sort_keys=True)
